@@ -70,22 +70,25 @@ class GhostMarket(Market):
 
 
 class GhostTrigger(Trigger):
-    def __init__(self, S, trace, market, made):
+    def __init__(self, S, trace, market, made, tid="", retire_after=2):
         self.S, self.trace, self.market, self.made = S, trace, market, made
         self.kwargs = {}
         self.n = 0
+        self.tid, self.retire_after = tid, retire_after
+        self.evaluated_at = []
 
     def when(self, snapshot):
         self.n += 1
         self.trace.append(("trigger.when", str(snapshot.timestamp)))
-        return self.S.bool(f"trigger_fires_{self.n}")
+        self.evaluated_at.append(snapshot.row_id)
+        return self.S.bool(f"trigger{self.tid}_fires_{self.n}")
 
     def do(self, snapshot):
         self.trace.append(("trigger.do", str(snapshot.timestamp)))
         self.made.append((self.market.operate(f"trigger@{snapshot.row_id}", self.n % 2 == 0), str(snapshot.timestamp)))
 
     def is_out_date(self, now):
-        return self.n >= 2          # retired after its second evaluation: the loop must stop calling it
+        return self.n >= self.retire_after          # retired after that many evaluations: the loop must stop calling it (and only it)
 
 
 class GhostStrategy(Strategy):
@@ -141,7 +144,11 @@ def build(S, n_bars, hourly, ops, with_trigger):
         a.broker.add_market(m2)
     a.broker.set_balance(USD_T, Decimal(100))
     st = GhostStrategy(S, trace, ops)
-    if with_trigger:
+    if with_trigger == 2:
+        # two triggers, the first retiring on its first evaluation — the very bar on which the second one is first evaluated
+        st.triggers.append(GhostTrigger(S, trace, m1, st.made, "A", 1))
+        st.triggers.append(GhostTrigger(S, trace, m1, st.made, "B", 3))
+    elif with_trigger:
         st.triggers.append(GhostTrigger(S, trace, m1, st.made))
     a.strategy = st
     prices = pd.DataFrame({"USD": [Decimal(1)] * n_bars, "TKA": [Decimal(i + 2) for i in range(n_bars)]}, index=idx)
@@ -151,12 +158,19 @@ def build(S, n_bars, hourly, ops, with_trigger):
 
 SHAPES = {"quick": [{"bars": 1, "hourly": False, "ops": {"on_bar": 1}, "trigger": False}, {"bars": 3, "hourly": False, "ops": {"before_bar": 1, "on_bar": 1}, "trigger": True},
                     {"bars": 3, "hourly": True, "ops": {"on_bar": 1, "after_bar": 1}, "trigger": False},
-                    {"bars": 2, "hourly": False, "ops": {"on_bar": 2, "notify": 1}, "trigger": False}, {"bars": 3, "hourly": "book", "ops": {"on_bar": 1}, "trigger": False}],
+                    {"bars": 2, "hourly": False, "ops": {"on_bar": 2, "notify": 1}, "trigger": False}, {"bars": 3, "hourly": "book", "ops": {"on_bar": 1}, "trigger": False},
+                    {"bars": 3, "hourly": False, "ops": {}, "trigger": 2}],
           "thorough": [{"bars": 1, "hourly": False, "ops": {"on_bar": 1}, "trigger": False}, {"bars": 3, "hourly": False, "ops": {"on_bar": 1}, "trigger": True},
                        {"bars": 3, "hourly": True, "ops": {"on_bar": 1, "after_bar": 1}, "trigger": False}, {"bars": 4, "hourly": True, "ops": {"before_bar": 1, "on_bar": 2}, "trigger": True},
                        {"bars": 5, "hourly": False, "ops": {}, "trigger": False},
                        {"bars": 2, "hourly": False, "ops": {"on_bar": 2, "notify": 1}, "trigger": False}, {"bars": 3, "hourly": True, "ops": {"after_bar": 1, "notify": 1}, "trigger": True},
-                       {"bars": 3, "hourly": "book", "ops": {"on_bar": 1}, "trigger": False}, {"bars": 5, "hourly": "book", "ops": {"before_bar": 1}, "trigger": False}]}
+                       {"bars": 3, "hourly": "book", "ops": {"on_bar": 1}, "trigger": False}, {"bars": 5, "hourly": "book", "ops": {"before_bar": 1}, "trigger": False},
+                       {"bars": 3, "hourly": False, "ops": {}, "trigger": 2}, {"bars": 4, "hourly": True, "ops": {"on_bar": 1}, "trigger": 2}]}
+
+
+@native
+def all_triggers(ts):
+    return list(ts)
 
 
 @native
@@ -183,6 +197,8 @@ def expected_prefix_ok(trace, idx, names):
             if ev[-1] not in (ts, ts_py):
                 return False, f"bar {ts}: event of another bar {ev}"
             r = order.index(ev[0])
+            if ev[0] == "trigger.do":
+                r = order.index("trigger.when")      # several triggers: when/do pairs follow one another inside the trigger phase
             if r < rank:
                 return False, f"bar {ts}: phase order violated at {ev} after {order[rank]}"
             rank = r
@@ -199,6 +215,7 @@ def expected_prefix_ok(trace, idx, names):
 def po_run(S):
     sh = S.shape
     a, st, trace, idx = build(S, sh["bars"], sh["hourly"], sh["ops"], sh["trigger"])
+    st0_triggers = list(st.triggers)
     a.run(False)
     names = ["m1"] + (["hourly"] if sh["hourly"] else [])
     ok, why = expected_prefix_ok(trace, idx, names)
@@ -213,6 +230,9 @@ def po_run(S):
     S.check("actions:stamped-with-the-bar-in-which-they-ran", all(str(pd.Timestamp(act.timestamp)) == ts for act, ts in st.made))
     S.check("actions:each-notified-exactly-once-in-order", len(st.notified) == len(st.made) and all(x is y[0] for x, y in zip(st.notified, st.made)))
     S.check("per-bar-buffer-empty-after-the-run", len(a._currents.actions) == 0)
+    for tr in all_triggers(st0_triggers):
+        k = min(tr.retire_after, len(idx))
+        S.check(f"trigger{tr.tid}:evaluated-on-every-bar-until-retired,never-after", tr.evaluated_at == list(range(k)))
     # the second refresh of a bar happens for exactly the markets on which an operation of that bar (before_bar, trigger, on_bar)
     # set has_update; operations in after_bar come after the refresh point
     markets = {m.market_info.name: m for m in a.broker.markets.values()}
